@@ -244,7 +244,7 @@ impl Property for C03 {
     const ID: &'static str = "C03";
     type Case = Case;
     fn rule() -> String {
-        "cases = (mapping document with 0..n merge entries, layout, duplicate-key policy, target). Exhaustive: all shapes with <= 2 own keys, <= 2 merge entries (at every interleaving with the own keys), <= 2 sources per entry (inline flow mapping, alias to an earlier anchored mapping, sequence of those), source key sets drawn from 3 names, x 3 policies x targets; random: nested merges to depth 3, null merge values, nested sequences, block/flow layouts, aliases. Oracle: value(doc) == value(rendering of the harness' own resolve_merges(expand_aliases(ast))) under the same policy and target (delivery order observable through the order-preserving untyped target), plus for the all-strings target equality with the harness' expected value; invalid merge values (non-null scalar, sequence containing a scalar) must be rejected; quoted / tagged `<<` is an ordinary key. Non-trivial: >= 1 merge entry together with a collision, a sequence source or a nested merge; distinct = (doc, layout, policy, target).".into()
+        "cases = (mapping document with 0..n merge entries, layout, duplicate-key policy, target). Exhaustive: all shapes with <= 2 own keys, <= 2 merge entries (at every interleaving with the own keys), <= 2 sources per entry (inline flow mapping, alias to an earlier anchored mapping, sequence of those), source key sets drawn from 3 names, x 3 policies x targets; random: nested merges to depth 3, null merge values, nested sequences, block/flow layouts, aliases; family composite-key-merges: own and merged keys drawn from sequence / mapping / scalar key nodes, 1-2 merge entries supplied in place, through an alias or inside a merge sequence. Oracle: value(doc) == value(rendering of the harness' own resolve_merges(expand_aliases(ast))) under the same policy and target (delivery order observable through the order-preserving untyped target), plus for the all-strings target equality with the harness' expected value; invalid merge values (non-null scalar, sequence containing a scalar) must be rejected; quoted / tagged `<<` is an ordinary key. Non-trivial: >= 1 merge entry together with a collision, a sequence source or a nested merge; distinct = (doc, layout, policy, target).".into()
     }
     fn assumptions() -> Vec<String> {
         vec![
